@@ -2,7 +2,7 @@ SPECIFICATION Spec
 CONSTANTS
   NodeKinds <- KindsAll
   MaxLen = 3
-  Configs <- ConfigsQuick
+  Configs <- ConfigsOne
   TexDevs <- NoDevs
   Bug = ""
 INVARIANTS Conservation DropsOnlyDiscardables NoDiscardableStart PrunedCompletely Geometry Skips Penalties ParEndLaw MachineIsFunction CodeIsTexPlusDeviations DeviationIsLocal
